@@ -36,6 +36,11 @@ def _xyz_text(V):
     T.use(st)
     kind = V.choose(["Molecule", "CartesianGeometry"], "class")
     m = geom(V, kind)
+    # the second atom is a dummy-TYPED atom that still has a real element (e.g. a capping atom): its element is part of the geometry;
+    # the third is the Unknown element (written as the placeholder)
+    AT = V.cls("molli.chem.atom:AtomType")
+    m.fields["_atoms"].items[1].fields["atype"] = I.getattr_(AT, "Dummy")
+    m.fields["_atoms"].items[2].fields["atype"] = V.choose([I.getattr_(AT, "Dummy"), I.getattr_(AT, "Regular")], "type-of-the-Unknown-atom")
     V.witness(lambda ev: {"op": "xyz-roundtrip", "kind": kind, "signature": "xyz-roundtrip"})
     V.cover()
     w = V.method(m, "dumps_xyz", [], qual=f"{GEO}.dumps_xyz")
@@ -131,7 +136,7 @@ def units_unit(fmt):
         T.use(st)
         unit = V.choose(sorted(ANGSTROM_PER), "unit")
         # every text/stream entry point of the class takes the unit: loads_*, load_* (stream), loads_all_*, load_all_* (stream)
-        entry = V.choose(["loads", "load", "loads_all", "load_all"], "entry")
+        entry = V.choose(["loads", "load", "loads_all", "load_all", "load(path)", "load_all(path)"], "entry")
         m = geom(V, "Molecule", ("C", "O"))
         V.witness(lambda ev: {"op": "units", "format": fmt, "unit": unit, "entry": entry, "signature": f"units/{fmt}"})
         V.cover()
@@ -142,9 +147,16 @@ def units_unit(fmt):
         cls = V.cls(M.CLS["Molecule"])
         I.target = f"{GEO}.yield_from_xyz" if fmt == "xyz" else f"{M.CLS['Structure']}.yield_from_mol2"
         try:
-            arg = w.value if entry.startswith("loads") else I.call(I.ext_models["io.StringIO"], [w.value], {})
-            r = I.call(I.getattr_(cls, f"{entry}_{fmt}"), [arg], {"source_units": unit})
-            if entry.endswith("_all"):
+            if entry.endswith("(path)"):
+                # a file name: open() hands out a stream over the written text
+                st.ghost["open_hook"] = lambda I_, path, mode: I_.call(I_.ext_models["io.StringIO"], [w.value], {})
+                arg = V.sym("file_name", "str")
+                meth = entry[:-len("(path)")]
+            else:
+                arg = w.value if entry.startswith("loads") else I.call(I.ext_models["io.StringIO"], [w.value], {})
+                meth = entry
+            r = I.call(I.getattr_(cls, f"{meth}_{fmt}"), [arg], {"source_units": unit})
+            if meth.endswith("_all"):
                 r = list(I.iterate(r))
                 V.ensure("reader/all-variant-returns-the-one-molecule-of-the-file", z3.BoolVal(len(r) == 1))
                 r = r[0]
